@@ -7,6 +7,7 @@ import TantivyModel.Proofs.DocSet.Intersection
 import TantivyModel.Proofs.DocSet.BufferedUnion
 import TantivyModel.Proofs.DocSet.IntersectionCount
 import TantivyModel.Proofs.DocSet.BufferedUnionSeek
+import TantivyModel.Proofs.DocSet.BufferedUnionDanger
 import TantivyModel.Model.DocSet.Tree
 /-!
 # C13 — every DocSet is one sorted sequence under any mix of advance and seek
@@ -285,6 +286,42 @@ theorem C13_union_core_program_equiv_partial (hA : Lawful A VA WA)
     (hp : coreOnly prog = true) (hlegal : legalProg ⟨l, none⟩ prog = true) :
     implRun (BUnion.ds A H fx) s prog = specRun ⟨l, none⟩ prog :=
   core_program_equiv (BUnion.ds A H fx) (BUnion.V VA H) (BUnion.core hA hscore hH hH0 fx) rfl prog s l hV hp hlegal
+
+/-- `count_including_deleted` of the buffered union returns the number of documents still to come
+(the current one, the buffered ones, and what `while self.refill()` drains from the children) -/
+theorem C13_union_count (hA : Lawful A VA WA)
+    (hscore : ∀ {c l}, VA c l → VA (A.score c).2 l) (H : Nat) (hH : 64 ∣ H) (hH0 : 0 < H) (fx : Fix)
+    (s : BUnion.State σ) (l : List Nat) (hV : BUnion.V VA H s l) :
+    (BUnion.count fx A H s).1 = l.length :=
+  BUnion.count_law hA hscore hH hH0 fx hV
+
+/-- **BufferedUnionScorer, `Lawful`.** The real `doc`, `advance`/`refill`, `seek` (buffered and far
+branch), `seek_danger` (buffered path, far path over the children with the first-hit break, and the
+danger zones both leave), `fill_bitset_block`, `count_including_deleted` — for every horizon `H`
+(multiple of 64) and all lawful children whose `score()` preserves their abstraction. The behaviour
+of `seek_danger` below the window start and of the far `seek` towards children in their danger
+zones is the REPAIRED one: it is read from the extracted guards
+(`UNION_SEEK_DANGER_BELOW_WINDOW_BUFFERED`, `UNION_SEEK_REVALIDATES_CHILDREN` = 1), so the proof
+breaks if either repair is reverted (findings 5 and 9). `_partial`: `fill_buffer` is the trait
+default in `BUnion.dsNF`; the model's own `fill_buffer` loop is still open. -/
+theorem C13_union_lawful_partial (hA : Lawful A VA WA)
+    (hscore : ∀ {c l}, VA c l → VA (A.score c).2 l) (H : Nat) (hH : 64 ∣ H) (hH0 : 0 < H) (fx : Fix) :
+    Lawful (BUnion.dsNF A H fx) (BUnion.V VA H) (BUnion.W VA WA H) :=
+  BUnion.lawful_nf hA hscore hH hH0 fx
+
+theorem C13_union_program_equiv_partial (hA : Lawful A VA WA)
+    (hscore : ∀ {c l}, VA c l → VA (A.score c).2 l) (H : Nat) (hH : 64 ∣ H) (hH0 : 0 < H) (fx : Fix)
+    (s : BUnion.State σ) (l : List Nat) (hV : BUnion.V VA H s l) (prog : List Op)
+    (hlegal : legalProg ⟨l, none⟩ prog = true) :
+    implRun (BUnion.dsNF A H fx) s prog = specRun ⟨l, none⟩ prog :=
+  C13_program_equiv _ _ _ (BUnion.lawful_nf hA hscore hH hH0 fx) prog s l hV hlegal
+
+theorem C13_union_end_sticky_partial (hA : Lawful A VA WA)
+    (hscore : ∀ {c l}, VA c l → VA (A.score c).2 l) (H : Nat) (hH : 64 ∣ H) (hH0 : 0 < H) (fx : Fix)
+    (s : BUnion.State σ) (hV : BUnion.V VA H s []) (prog : List Op)
+    (hlegal : legalProg ⟨[], none⟩ prog = true) :
+    implRun (BUnion.dsNF A H fx) s prog = specRun ⟨[], none⟩ prog :=
+  (C13_end_sticky _ _ _ (BUnion.lawful_nf hA hscore hH hH0 fx) prog s hV hlegal).1
 
 /-- the extracted horizon satisfies the side conditions -/
 theorem C13_union_horizon_ok : 64 ∣ Gen.UNION_HORIZON ∧ 0 < Gen.UNION_HORIZON
